@@ -33,7 +33,7 @@ theorem drop_cons_self {r : Nat} {held : List Nat} (h : above r held = true) :
     drop r (r :: held) = held := by
   have := drop_of_above h
   unfold drop at *
-  simp [List.filter_cons, this]
+  simp [this]
 
 theorem upd_same (f : Nat → Option Nat) (r : Nat) (v : Option Nat) : upd f r v r = v := by
   simp [upd]
@@ -160,11 +160,11 @@ theorem sum_map_set {α} (f : α → Nat) :
     cases i with
     | zero =>
       simp at h; subst h
-      simp [List.set]; omega
+      simp only [List.set_cons_zero, List.map_cons, List.sum_cons]; omega
     | succ i =>
       simp at h
       have := ih i t a h
-      simp [List.set]; omega
+      simp only [List.set_cons_succ, List.map_cons, List.sum_cons]; omega
 
 /-! ### the invariant -/
 
@@ -199,29 +199,32 @@ theorem good_init_of_ranked {progs : List (List Instr)} (h : ∀ p ∈ progs, Ra
     | some p => simp [hp] at ht; subst ht; simp at hr
 
 theorem good_acquire {s : State} {i : Nat} {t : Thread} {r : Nat} {pc' : List Instr}
-    {fin' : List Nat} (g : Good s) (ht : s.threads[i]? = some t) (hfree : s.owner r = none)
-    (hsym : sym (r :: t.held) pc' = some []) :
-    Good { threads := s.threads.set i ⟨pc', r :: t.held⟩,
-           owner := upd s.owner r (some i), finished := fin' } := by
+    (g : Good s) (ht : s.threads[i]? = some t) (hfree : s.owner r = none)
+    (hsym : sym (r :: t.held) pc' = some []) (s' : State)
+    (hth : s'.threads = s.threads.set i ⟨pc', r :: t.held⟩)
+    (hown : s'.owner = upd s.owner r (some i)) : Good s' := by
   refine ⟨?_, ?_, ?_⟩
   · intro j u hu
-    simp only [getElem?_set' ht] at hu
+    rw [hth, getElem?_set' ht] at hu
     by_cases hj : j = i
     · simp [hj] at hu; subst hu; exact hsym
     · simp [hj] at hu; exact g.sym_ok j u hu
   · intro r' u hu
+    rw [hown] at hu
+    rw [hth]
     simp only [getElem?_set' ht]
     by_cases hr : r' = r
     · subst hr; rw [upd_same] at hu; cases hu
-      exact ⟨_, by simp, List.mem_cons_self⟩
+      exact ⟨⟨pc', r' :: t.held⟩, by simp, List.mem_cons_self⟩
     · rw [upd_other _ _ hr] at hu
       obtain ⟨t0, ht0, hm⟩ := g.owned_held r' u hu
       by_cases hui : u = i
       · subst hui; rw [ht] at ht0; cases ht0
-        exact ⟨_, by simp, List.mem_cons_of_mem _ hm⟩
+        exact ⟨⟨pc', r :: t.held⟩, by simp, List.mem_cons_of_mem _ hm⟩
       · exact ⟨t0, by simp [hui, ht0], hm⟩
   · intro j u hu r' hr'
-    simp only [getElem?_set' ht] at hu
+    rw [hth, getElem?_set' ht] at hu
+    rw [hown]
     by_cases hj : j = i
     · simp [hj] at hu; subst hu; subst hj
       by_cases hr : r' = r
@@ -237,17 +240,19 @@ theorem good_acquire {s : State} {i : Nat} {t : Thread} {r : Nat} {pc' : List In
       rw [upd_other _ _ hr]; exact ho
 
 theorem good_release {s : State} {i : Nat} {t : Thread} {r : Nat} {pc' : List Instr}
-    {fin' : List Nat} (g : Good s) (ht : s.threads[i]? = some t) (hown : s.owner r = some i)
-    (hsym : sym (drop r t.held) pc' = some []) :
-    Good { threads := s.threads.set i ⟨pc', drop r t.held⟩,
-           owner := upd s.owner r none, finished := fin' } := by
+    (g : Good s) (ht : s.threads[i]? = some t) (hown0 : s.owner r = some i)
+    (hsym : sym (drop r t.held) pc' = some []) (s' : State)
+    (hth : s'.threads = s.threads.set i ⟨pc', drop r t.held⟩)
+    (hown : s'.owner = upd s.owner r none) : Good s' := by
   refine ⟨?_, ?_, ?_⟩
   · intro j u hu
-    simp only [getElem?_set' ht] at hu
+    rw [hth, getElem?_set' ht] at hu
     by_cases hj : j = i
     · simp [hj] at hu; subst hu; exact hsym
     · simp [hj] at hu; exact g.sym_ok j u hu
   · intro r' u hu
+    rw [hown] at hu
+    rw [hth]
     simp only [getElem?_set' ht]
     by_cases hr : r' = r
     · subst hr; rw [upd_same] at hu; cases hu
@@ -255,10 +260,11 @@ theorem good_release {s : State} {i : Nat} {t : Thread} {r : Nat} {pc' : List In
       obtain ⟨t0, ht0, hm⟩ := g.owned_held r' u hu
       by_cases hui : u = i
       · subst hui; rw [ht] at ht0; cases ht0
-        exact ⟨_, by simp, mem_drop.2 ⟨hm, hr⟩⟩
+        exact ⟨⟨pc', drop r t.held⟩, by simp, mem_drop.2 ⟨hm, hr⟩⟩
       · exact ⟨t0, by simp [hui, ht0], hm⟩
   · intro j u hu r' hr'
-    simp only [getElem?_set' ht] at hu
+    rw [hth, getElem?_set' ht] at hu
+    rw [hown]
     by_cases hj : j = i
     · simp [hj] at hu; subst hu; subst hj
       obtain ⟨hm, hr⟩ := mem_drop.1 hr'
@@ -266,28 +272,32 @@ theorem good_release {s : State} {i : Nat} {t : Thread} {r : Nat} {pc' : List In
     · simp [hj] at hu
       have ho := g.held_owned j u hu r' hr'
       have hr : r' ≠ r := by
-        intro e; subst e; rw [hown] at ho; cases ho; exact hj rfl
+        intro e; subst e; rw [hown0] at ho; cases ho; exact hj rfl
       rw [upd_other _ _ hr]; exact ho
 
 theorem good_skip {s : State} {i : Nat} {t : Thread} {pc' : List Instr}
-    {fin' : List Nat} (g : Good s) (ht : s.threads[i]? = some t)
-    (hsym : sym t.held pc' = some []) :
-    Good { threads := s.threads.set i ⟨pc', t.held⟩, owner := s.owner, finished := fin' } := by
+    (g : Good s) (ht : s.threads[i]? = some t)
+    (hsym : sym t.held pc' = some []) (s' : State)
+    (hth : s'.threads = s.threads.set i ⟨pc', t.held⟩)
+    (hown : s'.owner = s.owner) : Good s' := by
   refine ⟨?_, ?_, ?_⟩
   · intro j u hu
-    simp only [getElem?_set' ht] at hu
+    rw [hth, getElem?_set' ht] at hu
     by_cases hj : j = i
     · simp [hj] at hu; subst hu; exact hsym
     · simp [hj] at hu; exact g.sym_ok j u hu
   · intro r' u hu
+    rw [hown] at hu
+    rw [hth]
     simp only [getElem?_set' ht]
     obtain ⟨t0, ht0, hm⟩ := g.owned_held r' u hu
     by_cases hui : u = i
     · subst hui; rw [ht] at ht0; cases ht0
-      exact ⟨_, by simp, hm⟩
+      exact ⟨⟨pc', t.held⟩, by simp, hm⟩
     · exact ⟨t0, by simp [hui, ht0], hm⟩
   · intro j u hu r' hr'
-    simp only [getElem?_set' ht] at hu
+    rw [hth, getElem?_set' ht] at hu
+    rw [hown]
     by_cases hj : j = i
     · simp [hj] at hu; subst hu; subst hj
       exact g.held_owned j t ht r' hr'
@@ -315,31 +325,31 @@ theorem good_step_of {s s' : State} {tid : Nat} (g : Good s) (h : step s tid = s
         | some u => simp [ho] at h
         | none =>
           simp only [ho, Option.some.injEq] at h; subst h
-          exact good_acquire g ht ho (sym_acq.1 hs).2
+          exact good_acquire g ht ho (sym_acq.1 hs).2 _ rfl rfl
       | rel r =>
         simp only at h
         by_cases ho : s.owner r = some tid
         · simp only [ho, if_true, Option.some.injEq] at h; subst h
-          exact good_release g ht ho (sym_rel.1 hs).2
+          exact good_release g ht ho (sym_rel.1 hs).2 _ rfl rfl
         · simp [ho] at h
       | done r =>
         simp only at h
         by_cases ho : s.owner r = some tid
         · simp only [ho, if_true, Option.some.injEq] at h; subst h
-          exact good_release g ht ho (sym_done.1 hs).2
+          exact good_release g ht ho (sym_done.1 hs).2 _ rfl rfl
         · simp [ho] at h
       | once r body =>
         simp only at h
         by_cases hf : s.finished.contains r = true
         · simp only [hf, if_true, Option.some.injEq] at h; subst h
-          exact good_skip g ht (sym_once.1 hs).2.2
+          exact good_skip g ht (sym_once.1 hs).2.2 _ rfl rfl
         · simp only [hf] at h
           cases ho : s.owner r with
           | some u => simp [ho] at h
           | none =>
-            simp only [ho, Option.some.injEq] at h
+            simp only [ho] at h
             simp at h; subst h
-            exact good_acquire g ht ho (sym_unfold_once hs)
+            exact good_acquire g ht ho (sym_unfold_once hs) _ rfl rfl
 
 theorem good_run_of : ∀ {sched : List Nat} {s s' : State}, Good s → run s sched = some s' →
     Good s' := by
@@ -400,7 +410,7 @@ theorem head_enabled {s : State} {i : Nat} {t : Thread} (g : Good s)
       simp [ho]
     | once r body =>
       have ho := hfree r (above_iff.1 (sym_once.1 hs).1)
-      by_cases hf : s.finished.contains r = true
+      by_cases hf : r ∈ s.finished
       · simp [hf]
       · simp [hf, ho]
 
@@ -429,8 +439,7 @@ theorem progress {s : State} (g : Good s) (h : ∃ t ∈ s.threads, t.pc ≠ [])
       intro e
       have := g.sym_ok j u hj
       rw [e, sym_nil] at this
-      cases this
-      rename_i e'
+      have e' : u.held = [] := Option.some.inj this
       rw [e'] at hmu; cases hmu
     refine ⟨j, head_enabled g hj hpc ?_⟩
     intro r hr
@@ -457,7 +466,7 @@ theorem stuck_final {s : State} (g : Good s) (h : ∀ tid, step s tid = none) :
     obtain ⟨i, hi⟩ := List.mem_iff_getElem?.1 ht
     have := g.sym_ok i t hi
     rw [hpcs t ht, sym_nil] at this
-    cases this; assumption
+    exact Option.some.inj this
   refine ⟨fun t ht => ⟨hpcs t ht, hheld t ht⟩, ?_⟩
   intro r
   cases ho : s.owner r with
@@ -469,11 +478,11 @@ theorem stuck_final {s : State} (g : Good s) (h : ∀ tid, step s tid = none) :
 /-! ### termination -/
 
 theorem size_set {s : State} {i : Nat} {t : Thread} (ht : s.threads[i]? = some t)
-    (t' : Thread) (o : Nat → Option Nat) (f : List Nat) :
-    State.size { threads := s.threads.set i t', owner := o, finished := f } + size t.pc =
-      s.size + size t'.pc := by
+    (pc' : List Instr) (held' : List Nat) (o : Nat → Option Nat) (f : List Nat) :
+    State.size { threads := s.threads.set i ⟨pc', held'⟩, owner := o, finished := f } +
+      size t.pc = s.size + size pc' := by
   unfold State.size
-  exact sum_map_set (fun t => size t.pc) s.threads i t t' ht
+  exact sum_map_set (fun t => size t.pc) s.threads i t ⟨pc', held'⟩ ht
 
 /-- every step strictly decreases the measure -/
 theorem step_size {s s' : State} {tid : Nat} (h : step s tid = some s') : s'.size < s.size := by
@@ -493,42 +502,42 @@ theorem step_size {s s' : State} {tid : Nat} (h : step s tid = some s') : s'.siz
         | some u => simp [ho] at h
         | none =>
           simp only [ho, Option.some.injEq] at h; subst h
-          have := size_set ht ⟨rest, r :: t.held⟩ (upd s.owner r (some tid)) s.finished
+          have := size_set ht (rest) (r :: t.held) (upd s.owner r (some tid)) s.finished
           rw [hpc, size_cons, sizeI] at this
-          simp only at this ⊢; omega
+          omega
       | rel r =>
         simp only at h
         by_cases ho : s.owner r = some tid
         · simp only [ho, if_true, Option.some.injEq] at h; subst h
-          have := size_set ht ⟨rest, drop r t.held⟩ (upd s.owner r none) s.finished
+          have := size_set ht (rest) (drop r t.held) (upd s.owner r none) s.finished
           rw [hpc, size_cons, sizeI] at this
-          simp only at this ⊢; omega
+          omega
         · simp [ho] at h
       | done r =>
         simp only at h
         by_cases ho : s.owner r = some tid
         · simp only [ho, if_true, Option.some.injEq] at h; subst h
-          have := size_set ht ⟨rest, drop r t.held⟩ (upd s.owner r none) (r :: s.finished)
+          have := size_set ht (rest) (drop r t.held) (upd s.owner r none) (r :: s.finished)
           rw [hpc, size_cons, sizeI] at this
-          simp only at this ⊢; omega
+          omega
         · simp [ho] at h
       | once r body =>
         simp only at h
         by_cases hf : s.finished.contains r = true
         · simp only [hf, if_true, Option.some.injEq] at h; subst h
-          have := size_set ht ⟨rest, t.held⟩ s.owner s.finished
+          have := size_set ht (rest) (t.held) s.owner s.finished
           rw [hpc, size_cons, sizeI] at this
-          simp only at this ⊢; omega
+          omega
         · simp only [hf] at h
           cases ho : s.owner r with
           | some u => simp [ho] at h
           | none =>
-            simp only [ho, Option.some.injEq] at h
+            simp only [ho] at h
             simp at h; subst h
-            have := size_set ht ⟨body ++ .done r :: rest, r :: t.held⟩
+            have := size_set ht (body ++ .done r :: rest) (r :: t.held)
               (upd s.owner r (some tid)) s.finished
             rw [hpc, size_cons, sizeI, size_append, size_cons, sizeI] at this
-            simp only at this ⊢; omega
+            omega
 
 /-- a run is never longer than the measure of the state it starts from -/
 theorem run_size : ∀ {sched : List Nat} {s s' : State}, run s sched = some s' →
